@@ -18,6 +18,7 @@ import (
 	"sort"
 	"strings"
 	"testing"
+	"time"
 
 	"github.com/specterops/dawgs/graph"
 	"github.com/specterops/dawgs/retriever"
@@ -76,6 +77,10 @@ func genValue(r *rand.Rand, depth int) any {
 	case x < 8:
 		return r.IntN(2) == 0
 	case x < 9:
+		if r.IntN(2) == 0 {
+			// values a driver hands back as Go types rather than decoded JSON (expanded by driverValue)
+			return []string{"@@TIME:1700000000", "@@TIME:0", "@@STRS:a|b|ü", "@@STRS:", "@@I64S:1|-2|9007199254740992", "@@U64:18446744073709551615", "@@F32:1.5", "@@BYTES:abc"}[r.IntN(8)]
+		}
 		return nil
 	case x < 11 && depth < 2:
 		n := r.IntN(4)
@@ -190,8 +195,34 @@ func bigText(spec string) string {
 func driverValue(v any) any {
 	switch x := v.(type) {
 	case string:
-		if strings.HasPrefix(x, "@@BIG:") {
+		switch {
+		case strings.HasPrefix(x, "@@BIG:"):
 			return bigText(x)
+		case strings.HasPrefix(x, "@@TIME:"):
+			var sec int64
+			fmt.Sscanf(x, "@@TIME:%d", &sec)
+			return time.Unix(sec, 123000000).UTC()
+		case strings.HasPrefix(x, "@@STRS:"):
+			if x == "@@STRS:" {
+				return []string{}
+			}
+			return strings.Split(strings.TrimPrefix(x, "@@STRS:"), "|")
+		case strings.HasPrefix(x, "@@I64S:"):
+			var out []int64
+			for _, f := range strings.Split(strings.TrimPrefix(x, "@@I64S:"), "|") {
+				var n int64
+				fmt.Sscan(f, &n)
+				out = append(out, n)
+			}
+			return out
+		case strings.HasPrefix(x, "@@U64:"):
+			var n uint64
+			fmt.Sscanf(x, "@@U64:%d", &n)
+			return n
+		case strings.HasPrefix(x, "@@F32:"):
+			return float32(1.5)
+		case strings.HasPrefix(x, "@@BYTES:"):
+			return []byte(strings.TrimPrefix(x, "@@BYTES:"))
 		}
 		return x
 	case float64:
